@@ -1,7 +1,7 @@
 """C19 — every encryption uses fresh CEK, nonce and key-identifier randomness."""
 from __future__ import annotations
 import uuid
-import prelude, gen, clientsim, refdc, toycrypto
+import prelude, gen, clientsim, refdc, toycrypto, refimpl
 from check import canon_exc, hx
 
 MANIFEST = {
@@ -82,6 +82,72 @@ def history(ctx, real, mode, n_ops, constant_rng=False, cases=None, odd=False):
     return len(blobs)
 
 
+def overlapping(ctx):
+    """two protect calls that OVERLAP in time (what two threads sharing the library do): the outer call is suspended at its k-th random
+    draw while a complete inner call runs, then resumes — here by re-entering the library from the scripted os.urandom, which fixes the
+    schedule.  The CEKs (recovered by unwrapping with an independently derived KEK), GCM nonces and key-identifier nonces of the two
+    blobs must differ, and each blob must decrypt to its own plaintext."""
+    import os, uuid
+    import dpapi_ng
+    import dpapi_ng._client as c
+    from dpapi_ng._blob import DPAPINGBlob, ProtectionDescriptor
+    from cryptography.hazmat.primitives import keywrap
+    rk = uuid.UUID("d778c271-9025-9a82-f6dc-b8960b8ad8c5")
+    root, sid, now = bytes(range(64)), "S-1-5-21-1-2-3-1103", (361, 17, 13)
+    now_ns = clientsim.time_ns_for(*now)
+
+    class T:
+        @staticmethod
+        def time_ns():
+            return now_ns
+    old = c.time
+    c.time = T
+    try:
+        for k in (2, 3):
+            cache = dpapi_ng.KeyCache()
+            cache.load_key(root, root_key_id=rk)
+            st = {"n": 0, "inner": None}
+
+            def rng(n):
+                st["n"] += 1
+                if st["n"] == k and st["inner"] is None:
+                    st["inner"] = b""
+                    st["inner"] = dpapi_ng.ncrypt_protect_secret(b"inner call", sid, root_key_identifier=rk, cache=cache)
+                return os.urandom(n)
+            with toycrypto.recording(rng):
+                outer = dpapi_ng.ncrypt_protect_secret(b"outer call", sid, root_key_identifier=rk, cache=cache)
+            inner = st["inner"]
+            ctx.count("overlapping_protects")
+            inp = {"schedule": f"outer call suspended at its draw #{k}, inner call runs to completion, outer resumes", "scenario": "overlapping"}
+            if not inner:
+                ctx.violation("the inner protect of an overlapping pair did not run", inp, "-", "a blob")
+                continue
+            chain = refimpl.Chain("sha512", root, rk, ProtectionDescriptor.parse(sid).get_target_sd(), now[0])
+            ceks, ivs, kis = [], [], []
+            for name, raw, want in (("outer", outer, b"outer call"), ("inner", inner, b"inner call")):
+                b = DPAPINGBlob.unpack(raw)
+                kid = b.key_identifier
+                kek = refimpl.kek_nonce("sha512", chain.K2(kid.l1, kid.l2), kid.key_info)
+                try:
+                    ceks.append(keywrap.aes_key_unwrap(kek, b.enc_cek))
+                except Exception as e:  # noqa
+                    ctx.violation("a blob of an overlapping pair does not unwrap under the independently derived KEK", {**inp, "blob": name}, canon_exc(e), "a CEK")
+                    ceks.append(None)
+                ivs.append(b.enc_content_parameters[4:16])
+                kis.append(kid.key_info)
+                try:
+                    back = dpapi_ng.ncrypt_unprotect_secret(raw, cache=cache)
+                except Exception as e:  # noqa
+                    back = ("raised " + canon_exc(e)).encode()
+                if back != want:
+                    ctx.violation("a blob of an overlapping pair does not decrypt to its own plaintext", {**inp, "blob": name}, hx(back)[:60], hx(want))
+            for what, pair in (("cek", ceks), ("iv", ivs), ("ki", kis)):
+                if pair[0] is not None and pair[0] == pair[1]:
+                    ctx.violation(f"{what} repeated across protect calls", inp, "the two blobs carry the same " + what, "pairwise distinct")
+    finally:
+        c.time = old
+
+
 def run(ctx):
     prelude.validate(ctx)
     cases = []
@@ -101,6 +167,7 @@ def run(ctx):
     for mode in ("cache", "dc"):
         total += history(ctx, True, mode, 400 if ctx.thorough else 60)
     ctx.count("real_urandom_protects", total)
+    overlapping(ctx)
 
 
 def search(ctx, broken, disagreements):
